@@ -17,7 +17,7 @@ import (
 // ---------------------------------------------------------------- simulated file system
 
 const (
-	maxFiles = 64
+	maxFiles = 256
 	maxOps   = 64
 	maxLog   = 8192
 )
@@ -534,6 +534,10 @@ func NewSimWriter(s WriterSpec) *SimWriter { return &SimWriter{spec: s} }
 func (w *SimWriter) Write(p []byte) (int, error) {
 	simrt.Yield(-22)
 	w.Calls++
+	if len(w.Got) > 8<<20 {
+		// no legitimate render of the workload produces megabytes: unbounded output is non-termination
+		panic(simrt.StepOverrun{Steps: simrt.Step()})
+	}
 	if w.Fired {
 		return 0, errWriter
 	}
